@@ -103,6 +103,22 @@ PROPS["C09"] = {
     "level_text": "The real Stop/StopWithContext run concurrently with the real background goroutines; the explorer places the call at every scheduling point within the bound, store latencies are symbolic, and finality (no claim, no OnPromote, no store operation, no surviving goroutine after the return) and the return-time bound are checked on every path by monitors inside the Metrics callback and the store's issue log.",
     "level_note": "Reductions R1/R2 (a stop between two atomics of one critical section is not explored); bounded windows as listed.",
 }
+PROPS["C08"] = {
+    "groups": [{"run": "^vpH_C08_T_"}],
+    "bounds": {"quick": "one real instance, H=1s, elected directly or through the follower path (watcher running), promotion callback returning at once or blocking on its context; first term ended by each cause: record replaced (heartbeat conflict), record deleted, three failing refreshes, record taken by a later incarnation while refreshes hang (periodic validation), health threshold, preemption observed through the watcher before the next heartbeat, Stop, StopWithContext{WaitForDemote}, StopWithContext{DeleteKey,WaitForDemote}; then (unless stopped) the blocking record is removed, the instance leads a second term through the real follower path and is stopped; heartbeat and validation tickers coinciding (two causes in one tick); audits at every quiescent point"},
+    "outside": "connection-loss and reconnect-verification demotions (C11 harnesses); more than two terms; callbacks that never return without cancellation",
+    "assumptions": ["leadership edges are observed inside the Metrics.SetIsLeader callback, i.e. at the flag change itself"],
+    "level_text": "All paths (schedules, fault choices) of the scenario family are explored; at every quiescent point the callback log recorded by the harness is compared with the leadership edges observed at the flag: strict alternation starting with a promotion, one promotion per term, exactly one demotion per true->false edge, and IsLeader() <=> promotions - demotions = 1.",
+    "level_note": "Exhaustive over the listed causes and schedules within R1/R2; data is concrete in this family (the solver decides clock comparisons).",
+}
+PROPS["C19"] = {
+    "groups": [{"run": "^vpH_C08_T_"}],
+    "bounds": {"quick": "one real instance, H=1s, elected directly or through the follower path (watcher running), promotion callback returning at once or blocking on its context; first term ended by each cause: record replaced (heartbeat conflict), record deleted, three failing refreshes, record taken by a later incarnation while refreshes hang (periodic validation), health threshold, preemption observed through the watcher before the next heartbeat, Stop, StopWithContext{WaitForDemote}, StopWithContext{DeleteKey,WaitForDemote}; then (unless stopped) the blocking record is removed, the instance leads a second term through the real follower path and is stopped; heartbeat and validation tickers coinciding (two causes in one tick); audits at every quiescent point"},
+    "outside": "as C08",
+    "assumptions": [],
+    "level_text": "For every term of every explored path the context handed to OnPromote is inspected at quiescent points: cancelled once the term is over (every cause), not cancelled while the term lasts and the callback (which blocks on the context) is still running.",
+    "level_note": "as C08",
+}
 PROPS["S00"] = {"groups": [{"run": "^vpH_S00_"}], "level_text": "engine smoke test", "level_note": ""}
 
 NOT_APPLICABLE = {}
